@@ -111,13 +111,12 @@ Theorem C11_prefix_refuted_unpack_through_link : escapes (mkCfg true true true f
 Proof. exact refuted_title_through_link. Qed.
 Print Assumptions C11_prefix_refuted_unpack_through_link.
 
-(* with PreservePermissions a directory entry on top of a link re-modes a directory outside *)
-Theorem C11_prefix_refuted_remode :
-  inside wd0 [b "r"] = false /\
-  view_at (st_fs (fst (pushes (mkCfg true true true false true true) true wd0 cwd0 (mkStore fs0 []) os_remode))) [b "r"]
-  <> view_at fs0 [b "r"].
-Proof. exact refuted_remode. Qed.
-Print Assumptions C11_prefix_refuted_remode.
+(* (the earlier witness "directory entry on top of a link is chmod'ed through it" is gone: directory
+   modes are now applied after the last entry and only to paths that are still directories) *)
+Example C11_example_remode_skips_links :
+  snd (fst (pushes cfg_fixed true wd0 cwd0 (mkStore fs0 []) os_remode), snd (pushes cfg_fixed true wd0 cwd0 (mkStore fs0 []) os_remode)) = [true] /\
+  view_at (st_fs (fst (pushes cfg_fixed true wd0 cwd0 (mkStore fs0 []) os_remode))) [b "r"] = view_at fs0 [b "r"].
+Proof. exact remode_skips_links. Qed.
 
 (* os.Chtimes through a freshly unpacked link sets the times of a file outside *)
 Theorem C11_prefix_refuted_times_through_link : escapes (mkCfg true true true true true false).
